@@ -778,6 +778,13 @@ package router
 //@   ensures [C17:configured-ca-is-the-root-pool] err == nil ==> (len(cfg.CA) > 0 ? c.RootCAs != nil : c.RootCAs == nil)
 //@   ensures [C17:client-certificate-required-and-verified] err == nil && cfg.VerifyClientCert ==> c.ClientAuth == tls.RequireAndVerifyClientCert && c.ClientCAs == c.RootCAs
 //@   ensures [C17:no-client-certificate-otherwise] err == nil && !cfg.VerifyClientCert ==> c.ClientAuth == tls.NoClientCert
+//@   ghost gPool *x509.CertPool = nil
+//@   aftercall loadCA?: gPool = ret0
+//@   callsite loadCA?: [C17:the-configured-ca-file] arg0 == cfg.CA
+//@   ensures [C17:root-pool-is-the-loaded-ca] err == nil && len(cfg.CA) > 0 ==> c.RootCAs == gPool
+//@   callsite LoadX509KeyPair?: [C17:the-configured-certificate-and-key] arg0 == cfg.Cert && arg1 == cfg.Key
+//@   ensures [C17:a-listener-presents-exactly-its-certificate] err == nil && requireCert ==> len(c.Certificates) == 1
+//@   ensures [C17:no-certificate-configured-none-presented] err == nil && !cfg.DebugUseTempCert && !(len(cfg.Key) > 0 && len(cfg.Cert) > 0) ==> len(c.Certificates) == 0
 //@ func (r *router) subLoggerForUpstream(tag string) (l *zerolog.Logger)
 //@   trusted
 //@   modifies nothing
